@@ -59,6 +59,8 @@ structure Inv (pre : List Ev) (s : St) : Prop where
   cur : ∀ m, (s.mem m).cur ≠ [] → ∃ g, Since (· = .asgS m g (s.mem m).cur) (epochB m) pre
   inrev : ∀ m, Since (· = .revS m) (isRevE m) pre → (s.mem m).inCb = 1
   dead : ∀ m, (s.mem m).dead = true → .gone m ∈ pre
+  subT : ∀ m t, (s.mem m).subTopics = some t → Since (· = .subT m t) (isSubT m) pre
+  joined : ∀ m, (s.mem m).joined = true → .joinS m (s.mem m).joinTopics true ∈ pre
 
 theorem inv_init : Inv [] St.init := by
   constructor <;> intros <;> (try simp_all [St.init])
@@ -195,6 +197,10 @@ theorem step_wait {pre : List Ev} {s : St} {e : Ev} (I : Inv pre s) (hg : guard 
       obtain ⟨h1, h2, h3, h4⟩ := I.wait m hw
       exact ⟨h1, h2, h3, by simp [h4]⟩
     case gone m =>
+      simp [upd] at hw ⊢
+      obtain ⟨h1, h2, h3, h4⟩ := I.wait m hw
+      exact ⟨h1, h2, h3, by simp [h4]⟩
+    case subT m t =>
       simp [upd] at hw ⊢
       obtain ⟨h1, h2, h3, h4⟩ := I.wait m hw
       exact ⟨h1, h2, h3, by simp [h4]⟩
@@ -410,12 +416,33 @@ theorem post_dead (s : St) (e : Ev) (m : Nat) (h : ((post s e).mem m).dead = tru
   · rw [post_mem_other ha] at h
     exact Or.inr h
 
+theorem isSubT_actor {e : Ev} {m : Nat} (h : actor e ≠ some m) : isSubT m e = false := by
+  cases e <;> simp_all [actor, isSubT]
+
+theorem post_subT (s : St) (e : Ev) (m : Nat) (t : List Nat) (h : ((post s e).mem m).subTopics = some t) :
+    e = .subT m t ∨ (isSubT m e = false ∧ (s.mem m).subTopics = some t) := by
+  by_cases ha : actor e = some m
+  · rw [post_mem_self ha] at h
+    cases e <;> simp [actor] at ha <;> subst ha <;> simp [upd, isSubT] at h ⊢ <;> (try split at h) <;> simp_all
+  · rw [post_mem_other ha] at h
+    exact Or.inr ⟨isSubT_actor ha, h⟩
+
+theorem post_joined (s : St) (e : Ev) (m : Nat) (h : ((post s e).mem m).joined = true) :
+    e = .joinS m ((post s e).mem m).joinTopics true ∨
+    ((s.mem m).joined = true ∧ ((post s e).mem m).joinTopics = (s.mem m).joinTopics) := by
+  by_cases ha : actor e = some m
+  · rw [post_mem_self ha] at h ⊢
+    cases e <;> simp [actor] at ha <;> subst ha <;> simp [upd] at h ⊢ <;> (try split at h) <;>
+      (try split) <;> simp_all
+  · rw [post_mem_other ha] at h ⊢
+    exact Or.inr ⟨h, rfl⟩
+
 /-- every accepted event preserves the invariant -/
 theorem inv_step {pre : List Ev} {s s' : St} {e : Ev} (I : Inv pre s) (h : step s e = some s') :
     Inv (pre ++ [e]) s' := by
   obtain ⟨hg, rfl⟩ := step_some h
   refine ⟨?_, ?_, step_wait I hg, step_synced I hg, step_gens I hg, step_gensT I hg, step_distT I hg,
-    ?_, ?_, ?_, ?_, step_inrev I hg, ?_⟩
+    ?_, ?_, ?_, ?_, step_inrev I hg, ?_, ?_, ?_⟩
   · intro m hgate
     rcases post_gate s e m with ⟨g, tps, rfl, _, hc⟩ | hf | ⟨hb, hg', hc⟩
     · exact ⟨g, Since.new pre (by rw [hc])⟩
@@ -452,6 +479,14 @@ theorem inv_step {pre : List Ev} {s s' : St} {e : Ev} (I : Inv pre s) (h : step 
     rcases post_dead s e m hd with rfl | h0
     · simp
     · exact List.mem_append_left _ (I.dead m h0)
+  · intro m t ht
+    rcases post_subT s e m t ht with rfl | ⟨hb, h0⟩
+    · exact Since.new pre rfl
+    · exact (I.subT m t h0).snoc hb
+  · intro m hj
+    rcases post_joined s e m hj with he | ⟨h0, ht⟩
+    · exact List.mem_append_right _ (by simp [← he])
+    · rw [ht]; exact List.mem_append_left _ (I.joined m h0)
 
 theorem inv_reach {pre : List Ev} {s : St} (h : Reach step St.init pre s) : Inv pre s := by
   induction h with
